@@ -1,6 +1,6 @@
 """Expression generators and converters for property C03 (shared by the streams and the search of harness/c03.py).
 
-* types are tuples: ('int',) ('float',) ('bool',) ('str',) ('none',) ('list', T) ('dict', K, V) ('tuple', T…) ('opt', T)
+* types are tuples: ('int',) ('float',) ('bool',) ('str',) ('none',) ('list', T) ('dict', K, V) ('tuple', T…) ('opt', T) = `T | None`, ('opt', T, 'nf') = `None | T` (None first)
   ('iter', T) ('items', K, V)   (the last two only as the source of a comprehension / argument of list())
 * `Gen` produces well-typed source text for a requested type (type-directed, precedence-aware printing) and, on request,
   ill-typed variants with exactly one fault;
@@ -50,7 +50,7 @@ def ty_annot(t: Ty) -> str:
 	if k == 'tuple':
 		return f"tuple[{', '.join(ty_annot(x) for x in t[1:])}]"
 	if k == 'opt':
-		return f'{ty_annot(t[1])} | None'
+		return f'None | {ty_annot(t[1])}' if len(t) > 2 else f'{ty_annot(t[1])} | None'
 	raise AssertionError(t)
 
 
@@ -67,7 +67,7 @@ def ty_sexp(t: Ty) -> str:
 	if k == 'tuple':
 		return '( tuple ' + ' '.join(ty_sexp(x) for x in t[1:]) + ' )'
 	if k == 'opt':
-		return f'( union {ty_sexp(t[1])} None )'
+		return f'( union None {ty_sexp(t[1])} )' if len(t) > 2 else f'( union {ty_sexp(t[1])} None )'
 	raise AssertionError(t)
 
 
@@ -85,7 +85,7 @@ def ty_short(t: Ty) -> str:
 	if k == 'tuple':
 		return f"tuple<{', '.join(ty_short(x) for x in t[1:])}>"
 	if k == 'opt':
-		return f'Union<{ty_short(t[1])}, None>'
+		return f'Union<None, {ty_short(t[1])}>' if len(t) > 2 else f'Union<{ty_short(t[1])}, None>'
 	raise AssertionError(t)
 
 
@@ -93,6 +93,9 @@ BASE_ENV: list[tuple[str, Ty]] = [
 	('a', INT), ('b', FLOAT), ('p', BOOL), ('s', STR), ('xs', ('list', INT)), ('d', ('dict', STR, INT)),
 	('t', ('tuple', INT, STR)), ('ys', ('list', FLOAT)), ('ss', ('list', STR)), ('xss', ('list', ('list', INT))),
 	('dd', ('dict', STR, ('list', INT))), ('o', ('opt', INT)), ('ol', ('opt', ('list', INT))), ('c', INT), ('q', BOOL), ('e', FLOAT),
+	# optionals spelled with None first (unwrapping an optional does not depend on the side None is written on)
+	('on', ('opt', INT, 'nf')), ('oln', ('opt', ('list', INT), 'nf')), ('odn', ('opt', ('dict', STR, FLOAT), 'nf')), ('od', ('opt', ('dict', STR, FLOAT))),
+	('otn', ('opt', ('tuple', INT, STR), 'nf')), ('osn', ('opt', STR, 'nf')),
 ]
 
 
@@ -221,12 +224,18 @@ class Gen:
 	def cond(self, depth: int) -> Src:
 		return self.expr(BOOL, depth)
 
-	def receiver(self, t: Ty, depth: int) -> Src | None:
-		"""an expression of type t that tranp's grammar accepts as a receiver"""
+	def receiver(self, t: Ty, depth: int, opt: bool = False) -> Src | None:
+		"""an expression of type t that tranp's grammar accepts as a receiver; with `opt` also a variable declared as an optional of t
+		(only where the value is USED as a receiver: subscript, slice, method call, iteration — never as a function argument)"""
 		vs = self.vars_of(t)
 		opts: list[Any] = []
 		if vs:
 			opts += [lambda: Src(self.rng.choice(vs), P_ATOM, True)] * 3
+		# an optional of t, either spelling, used as a t (tranp unwraps `T | None` / `None | T` on subscript, attribute, call, iteration;
+		# CPython raises for None, which the pytype stream keeps out)
+		ovs = [n for n, u in (*self.bound, *self.env) if u[0] == 'opt' and u[1] == t] if opt and self.mode != 'pytype' and self.in_comp == 0 else []
+		if ovs:
+			opts += [lambda: Src(self.rng.choice(ovs), P_ATOM, True)] * (2 if vs else 3)
 		if depth > 0:
 			opts.append(lambda: self.index_into(t, depth, must=True))
 			opts.append(lambda: self.call_returning(t, depth, must=True))
@@ -240,11 +249,11 @@ class Gen:
 	def index_into(self, t: Ty, depth: int, must: bool = False) -> Src:
 		"""xs[i] / d[k] / tup[0] / s[i] producing t"""
 		cands: list[Any] = []
-		lst = self.receiver(('list', t), depth - 1)
+		lst = self.receiver(('list', t), depth - 1, opt=True)
 		if lst is not None:
 			cands.append(lambda: Src(f'{lst.text}[{self.index_key(depth - 1).text}]', P_ATOM, True))
 		for kt in (STR, INT):
-			dct = self.receiver(('dict', kt, t), 0)
+			dct = self.receiver(('dict', kt, t), 0, opt=True)
 			if dct is not None:
 				cands.append(lambda dct=dct, kt=kt: Src(f'{dct.text}[{self.expr(kt, min(depth - 1, 1)).text}]', P_ATOM, True))
 		for n, u in (*self.bound, *self.env):
@@ -253,7 +262,7 @@ class Gen:
 					if c == t:
 						cands.append(lambda n=n, i=i: Src(f'{n}[{i}]', P_ATOM, True))
 		if t == STR:
-			sr = self.receiver(STR, depth - 1)
+			sr = self.receiver(STR, depth - 1, opt=True)
 			if sr is not None:
 				cands.append(lambda: Src(f'{sr.text}[{self.index_key(depth - 1).text}]', P_ATOM, True))
 		if not cands:
@@ -271,7 +280,7 @@ class Gen:
 		pure = self.pure
 
 		def recv(u: Ty) -> Src | None:
-			return self.receiver(u, d1)
+			return self.receiver(u, d1, opt=True)
 
 		def add(u: Ty, fmt: Any) -> None:
 			r = recv(u)
@@ -363,22 +372,23 @@ class Gen:
 	def nonempty_str(self) -> Src:
 		return Src(str_lit(self.rng.choice([',', ' ', 'a', 'ab', '-', 'x'])), P_ATOM)
 
-	def iter_source(self, el: Ty, depth: int) -> Src | None:
-		"""an iterable whose items have type el (what `for x in …` / `list(…)` consume)"""
+	def iter_source(self, el: Ty, depth: int, opt: bool = False) -> Src | None:
+		"""an iterable whose items have type el (what `for x in …` / `list(…)` consume); `opt`: the source of a `for` clause may be an optional"""
 		cands: list[Any] = []
 		pure = self.pure
-		lst = self.receiver(('list', el), depth)
+		lst = self.receiver(('list', el), depth, opt=opt)
 		if lst is not None:
 			cands += [lambda: lst] * 2
-			if not pure or True:
-				cands.append(lambda: Src(f'reversed({lst.text})', P_ATOM, True))
+		plain = self.receiver(('list', el), depth) if opt else lst
+		if plain is not None:
+			cands.append(lambda: Src(f'reversed({plain.text})', P_ATOM, True))
 		if el in (STR, INT):
-			dct = self.receiver(('dict', el, INT), 0)
+			dct = self.receiver(('dict', el, INT), 0, opt=opt)
 			if dct is not None:
 				cands.append(lambda: dct)
 				cands.append(lambda: Src(f'{dct.text}.keys()', P_ATOM, True))
 		for kt in (STR, INT):
-			dv = self.receiver(('dict', kt, el), 0)
+			dv = self.receiver(('dict', kt, el), 0, opt=opt)
 			if dv is not None:
 				cands.append(lambda dv=dv: Src(f'{dv.text}.values()', P_ATOM, True))
 		if el == INT:
@@ -560,7 +570,7 @@ class Gen:
 		return Src(f'{n.at(P_FACTOR)} * {sq.at(P_FACTOR)}', P_TERM)
 
 	def slice_of(self, t: Ty, depth: int) -> Src:
-		r = self.receiver(t, depth)
+		r = self.receiver(t, depth, opt=True)
 		if r is None:
 			return self.expr(t, 0)
 		lo = self.rng.choice(['', '0', '1', '-1'])
@@ -595,7 +605,7 @@ class Gen:
 		r = self.rng.random()
 		if r < 0.25:
 			return self.comp_two('list', el, None, depth)
-		src = self.iter_source(src_el, max(depth, 0))
+		src = self.iter_source(src_el, max(depth, 0), opt=True)
 		if src is None:
 			return self.list_literal(el, max(depth, 0))
 		x = self.fresh_var()
@@ -616,7 +626,7 @@ class Gen:
 		if rng.random() < 0.5:
 			kt = rng.choice([STR, INT])
 			et = self.pick_ty(0)
-			dct = self.receiver(('dict', kt, et), 0)
+			dct = self.receiver(('dict', kt, et), 0, opt=True)
 			if dct is None:
 				return self.list_literal(el, 0) if kind == 'list' else self.dict_literal(el, vt, 0)  # type: ignore[arg-type]
 			src, bs = f'{dct.text}.items()', [(k, kt), (v, et)]
@@ -645,7 +655,7 @@ class Gen:
 		if self.rng.random() < 0.4:
 			return self.comp_two('dict', kt, vt, depth)
 		src_el = kt if self.rng.random() < 0.6 else self.pick_ty(0)
-		src = self.iter_source(src_el, max(depth, 0))
+		src = self.iter_source(src_el, max(depth, 0), opt=True)
 		if src is None:
 			return self.dict_literal(kt, vt, max(depth, 0))
 		x = self.fresh_var()
